@@ -125,7 +125,8 @@ fn world() -> &'static Result<World, String> {
 const SKIP_FAMILY: [&str; 20] = ["skip", "skip-twice", "probe", "T:Range<u8>", "T:RangeFrom<i8>", "T:Bound<i64>", "T:Duration", "D:DArr", "D:DMap", "D:DRich", "S:IgnoredAny", "S:SPlain", "S:SEnum", "S:SAny",
                                  "E:Duration", "E:Bound<i64>", "E:DArr", "E:DMap", "E:DRich", "Z:SPlain"];
 
-fn is_err_class(v: &str, class: &str) -> bool { v.starts_with('e') && v[1 ..].split('@').next() == Some(class) }
+/// verdict of an error: e<class>#<position the error reports or ->@<decoder position>
+fn is_err_class(v: &str, class: &str) -> bool { v.starts_with('e') && v[1 ..].split(|c| c == '#' || c == '@').next() == Some(class) }
 
 fn compare(i: u64, st: &mut Stats) -> CaseResult {
     let w = match world() { Ok(w) => w, Err(e) => return Err(Fail::new("infrastructure", e.clone())) };
